@@ -293,7 +293,7 @@ ProxyEof ==
     /\ UNCHANGED <<cfgv, srv, cpc, creply, chan, timeout, selpc, tunnelC, cclosed, agr, obs>>
 
 RogueReply ==
-    /\ creply = "none" /\ outcome = "badreply" /\ cpc = "read"
+    /\ creply = "none" /\ outcome = "badreply" /\ cpc # "connector" /\ wn[1] > 0
     /\ creply' = "other"
     /\ UNCHANGED <<cfgv, srv, cpc, pclosed, chan, timeout, selpc, tunnelC, cclosed, agr, obs>>
 
